@@ -292,3 +292,77 @@ func runKM4(c *Ctx, s *Sink) {
 		})
 	})
 }
+
+func init() {
+	register(&Rule{
+		ID: "KM-5", Props: []string{"C19"}, Min: 1,
+		Doc: `the k-mer mask is built without overflowing when the k-mer fills the word: in NewKmerMap every LeftShift of the constant one by an amount 2·kmersize + c (kmersize is bounded only
+by the word width: 32 symbols in Uint64, 64 in Uint128 — the range the property quantifies over) has c < 0; (1 << 2k) − 1 shifts the one out of the word for the largest k, the mask becomes 0 − 1
+and the fixed-precision Sub panics.`,
+		Run: runKM5,
+	})
+}
+
+func runKM5(c *Ctx, s *Sink) {
+	fd, p := c.FindFunc("pkg/obikmer", "NewKmerMap")
+	key := "pkg/obikmer.NewKmerMap:mask"
+	if fd == nil {
+		s.Undecided(nil, key, 0, "function not found")
+		return
+	}
+	info := p.TypesInfo
+	var kobj types.Object
+	for _, id := range flattenParams(fd.Type.Params) {
+		if id != nil && strings.Contains(strings.ToLower(id.Name), "kmersize") {
+			kobj = info.ObjectOf(id)
+		}
+	}
+	if kobj == nil {
+		s.Undecided(nil, key, fd.Pos(), "no k-mer size parameter")
+		return
+	}
+	defs := collectDefs(info, fd)
+	isOne := func(e ast.Expr) bool {
+		e = ast.Unparen(e)
+		if id, ok := e.(*ast.Ident); ok {
+			if ds := defs[info.ObjectOf(id)]; len(ds) == 1 && ds[0] != nil {
+				e = ast.Unparen(ds[0])
+			}
+		}
+		call, ok := e.(*ast.CallExpr)
+		if !ok {
+			return false
+		}
+		f := callee(info, call)
+		return f != nil && f.Name() == "OneUint"
+	}
+	n := 0
+	var bad []string
+	ast.Inspect(fd.Body, func(nd ast.Node) bool {
+		call, ok := nd.(*ast.CallExpr)
+		if !ok || len(call.Args) != 1 {
+			return true
+		}
+		sel, ok := call.Fun.(*ast.SelectorExpr)
+		if !ok || sel.Sel.Name != "LeftShift" || !isOne(sel.X) {
+			return true
+		}
+		a, b, ok := affineIn(info, call.Args[0], kobj)
+		if !ok || a != 2 {
+			return true
+		}
+		n++
+		if b >= 0 {
+			bad = append(bad, fmt.Sprintf("%s: one.LeftShift(%s) = 1 << (2k%+d)", c.Pos(call.Pos()), types.ExprString(call.Args[0]), b))
+		}
+		return true
+	})
+	switch {
+	case len(bad) > 0:
+		s.Fail(nil, key, fd.Pos(), "the k-mer mask shifts the constant one by the full width of the word when the k-mer fills it (k = 32 in Uint64, 64 in Uint128): "+strings.Join(bad, "; ")+" — the shift yields 0 and the following Sub(1) panics (underflow) instead of producing the all-ones mask")
+	case n == 0:
+		s.Pass(nil, key, fd.Pos(), "no shift of the constant one by 2·kmersize + c")
+	default:
+		s.Pass(nil, key, fd.Pos(), fmt.Sprintf("%d shift(s) of the constant one by 2·kmersize + c, all with c < 0", n))
+	}
+}
